@@ -136,6 +136,36 @@ def _kill_leaves_journal(old, existed, block, kill_at, torn, compress, torn_all=
     return arch == old or arch == full
 
 
+def _fault_then_kill(old, block, fault_at, kill_after, torn, compress):
+    """An append hits an I/O error and the process dies while the error is being handled (during the roll-back): the journal must
+    outlive the torn archive."""
+    name = 'x.warc.gz' if compress else 'x.warc'
+    full, nops = _full_append(old, True, block, compress, name)
+    fs = fakefs.FS(fault_at=fault_at, kill_at=fault_at + kill_after, torn=torn, torn_all=3)
+    fs.files[name] = old
+    rec = _recorder(fs, compress, name)
+    jn = name + '-wpullinc'
+    try:
+        rec.write_record(_record(block))
+    except fakefs.Killed:
+        pass
+    except OSError:
+        hit('rolled-back')
+        if fs.faulted is not None and fs.faulted[1] == 'remove':
+            # the unlink of the journal itself failed: crash-safe state instead (see ASSUMPTIONS)
+            return jn in fs.files and _journal_ok(fs.files[jn], len(old)) and fs.files.get(name, b'')[:len(old)] == old
+        return fs.files.get(name) == old and jn not in fs.files          # the kill point lay beyond the clean-up: plain roll-back
+    if fs.snapshot is None:
+        hit('not-reached')
+        return True
+    hit('killed-in-handler' if fs.faulted is not None else 'killed-before-fault')
+    snap = fs.snapshot
+    arch = snap.get(name, b'')
+    if jn in snap and _journal_ok(snap[jn], len(old)):
+        return arch[:len(old)] == old
+    return arch == old or arch == full
+
+
 def _kill_at_startup(kill_at, torn, compress, appending, rollover):
     """The process dies while a recorder is being constructed (its warcinfo record is the first append of the run - onto an existing
     archive when appending)."""
@@ -222,6 +252,17 @@ HARNESSES = [
       funcs=['wpull/warc/recorder.py:WARCRecorder.write_record'],
       doc='for every operation at which the process dies (incl. torn writes): the snapshot has a complete journal naming the '
           'pre-append length with the old bytes intact below it, or the archive is old / old + the complete record'),
+    H('fault_then_kill', '_fault_then_kill', 'old: bytes, block: bytes, fault_at: int, kill_after: int, torn: int, compress: bool',
+      pre={'quick': ['len(old) <= 1 and len(block) <= 1 and 1 <= fault_at <= %d and 1 <= kill_after <= 5 and 0 <= torn <= 1' % _OPS],
+           'thorough': ['len(old) <= 3 and len(block) <= 2 and 1 <= fault_at <= %d and 1 <= kill_after <= 6 and 0 <= torn <= 3' % _OPS]},
+      parts=[{'tag': t + h, 'fix': {'compress': c}, 'pre': [p_]} for t, c in (('plain', 'False'), ('gzip', 'True'))
+             for h, p_ in (('_lo', 'fault_at <= 8'), ('_hi', 'fault_at >= 9'))],
+      timeout={'quick': 250, 'thorough': 900}, samples=[(b'a', b'x', 7, 1, 0, False), (b'a', b'x', 8, 2, 1, True)],
+      need=['killed-in-handler', 'rolled-back'],
+      funcs=['wpull/warc/recorder.py:WARCRecorder.write_record'],
+      doc='an I/O error at operation k of an append followed by the death of the process 1-6 operations later, i.e. while the error is '
+          'being handled: the snapshot holds a complete journal naming the old length with the old bytes intact, or the archive is the '
+          'old one / the old one plus the complete record'),
     H('kill_at_startup', '_kill_at_startup', 'kill_at: int, torn: int, compress: bool, appending: bool, rollover: bool',
       pre=['1 <= kill_at <= 24 and 0 <= torn <= 3'], timeout={'quick': 250, 'thorough': 600},
       parts=[{'tag': 'append' if a else 'new', 'fix': {'appending': str(a)}} for a in (False, True)],
